@@ -55,3 +55,41 @@ class LoopInvariant:
                     ex.oblige("%s:variant-decreases" % self.name, z3.And(v0 >= 0, v1 < v0))
             raise PathAbort("loop-step-verified")
         ex.exec_block(st.orelse, fr)
+
+
+class ForStep:
+    """`for x in xs: body` over a list of unknown length, as a fold: the state after the loop is
+    the fold of a specification step over the elements.  Checked by induction on the list:
+        * the representation invariant holds on entry (empty prefix),
+        * from ANY state satisfying the invariant and ANY element, the body establishes the invariant
+          again and the relation `step_ok` between the state before, the element and the state after;
+    after the loop the state is an arbitrary one satisfying the invariant whose ghost component is by
+    construction the fold of the specification step.  (Partial correctness; `break` is not supported.)"""
+    def __init__(self, havoc, pick, invariant, snapshot, step_ok, name="fold"):
+        self.havoc, self.pick, self.invariant, self.snapshot, self.step_ok, self.name = havoc, pick, invariant, snapshot, step_ok, name
+
+    def run(self, ex, st, fr):
+        if not isinstance(st, ast.For):
+            raise NotImplementedError("ForStep on a while loop")
+        for nm, c in self.invariant(ex, fr):
+            ex.oblige("%s:invariant-on-entry:%s" % (self.name, nm), c)
+        self.havoc(ex, fr)
+        for nm, c in self.invariant(ex, fr):
+            ex.assume(c)
+        ex.ghost["loop_contracts_used"] = ex.ghost.get("loop_contracts_used", 0) + 1
+        if ex.decide(ex.fresh("one_more_element", z3.BoolSort())):
+            x = self.pick(ex, fr)
+            ex.assign(st.target, x, fr)
+            before = self.snapshot(ex, fr)
+            try:
+                ex.exec_block(st.body, fr)
+            except _Continue:
+                pass
+            except _Break:
+                raise NotImplementedError("break inside a ForStep loop")
+            for nm, c in self.step_ok(ex, fr, before, x):
+                ex.oblige("%s:step:%s" % (self.name, nm), c)
+            for nm, c in self.invariant(ex, fr):
+                ex.oblige("%s:invariant-preserved:%s" % (self.name, nm), c)
+            raise PathAbort("loop-step-verified")
+        ex.exec_block(st.orelse, fr)
